@@ -46,9 +46,9 @@ func c27Gen(rng *core.Rng, tier string) *harness.Plan {
 	for i := 0; i < n; i++ {
 		op := harness.Op{Kind: kinds[weighted(rng, w)]}
 		op.N = rng.IntN(int(p.Params["identities"]) + 7) // identity selector (incl. genesis nodes)
-		op.M = rng.IntN(7)                                // chain that carries the snapshot
-		op.A = int64(rng.IntN(100))                       // validity dice
-		op.B = int64(rng.IntN(1000))                      // time advance selector
+		op.M = rng.IntN(7)                               // chain that carries the snapshot
+		op.A = int64(rng.IntN(100))                      // validity dice
+		op.B = int64(rng.IntN(1000))                     // time advance selector
 		p.Ops = append(p.Ops, op)
 	}
 	return p
@@ -117,7 +117,9 @@ func c27Exec(p *harness.Plan) *harness.Outcome {
 						}
 					}
 					if len(acc) > 0 {
-						sort.Slice(acc, func(a, b int) bool { return acc[a].ts < acc[b].ts || (acc[a].ts == acc[b].ts && acc[a].signer.String() < acc[b].signer.String()) })
+						sort.Slice(acc, func(a, b int) bool {
+							return acc[a].ts < acc[b].ts || (acc[a].ts == acc[b].ts && acc[a].signer.String() < acc[b].signer.String())
+						})
 						n := acc[op.N%len(acc)]
 						signer, payee = n.signer, n.payee
 					}
